@@ -162,6 +162,17 @@ def _run(case: dict, gaps, sim) -> CaseResult:
             if conn.packets:
                 res.violations.append(Violation(ID, "c03:name:delivery-despite-mismatch", str(len(conn.packets))))
                 break
+        if case.get("close_after") is not None and i == int(case["close_after"]) and fed < hs_end:
+            # the owner closes the helper (force disconnect / a fatal error elsewhere) while the handshake is in flight:
+            # readiness must not be signalled -- a pending readiness wait ends with an error
+            classes.add("closed_during_handshake")
+            h.close()
+            rf = h.ready_future
+            if rf.done() and not rf.cancelled() and rf.exception() is None:
+                res.violations.append(Violation(ID, "c03:readiness:signalled-by-close", f"close() after {fed}/{hs_end} handshake bytes resolved the readiness wait successfully"))
+            if conn.packets:
+                res.violations.append(Violation(ID, "c03:delivery:before-handshake", str(len(conn.packets))))
+            break
         if gaps and ok_name:
             g = float(gaps[i % len(gaps)])
             n_before = len(conn.packets)
@@ -349,6 +360,7 @@ def _case(draw, tier):
         "hs_payload": hsp,
         "key_fmt": draw(st.sampled_from([0, 0, 0, 0, 1, 2, 3, 4, 5])),
         **({"gaps": draw(st.lists(st.sampled_from([0, 0.01, 1, 9.5, 29, 31, 100]), min_size=1, max_size=3))} if draw(st.integers(0, 9)) == 6 else {}),
+        **({"close_after": draw(st.integers(0, 3))} if draw(st.integers(0, 11)) == 5 else {}),
         **({"flow": {str(i): draw(st.lists(st.sampled_from(["pause", "resume"]), min_size=1, max_size=2)) for i in range(len(cuts) + 1) if draw(st.integers(0, 2)) == 0}} if draw(st.integers(0, 9)) == 3 else {}),
     }
 
@@ -373,6 +385,8 @@ def enumerated(tier):
         yield {"key": key, "eph": 2, "server_name": "dev", "expected": "dev", "msgs": msgs, "cuts": [c], "kinds": [c % 4, (c + 1) % 4]}
         if c % 3 == 0:
             yield {"key": key, "eph": 2, "server_name": "dev", "expected": None, "msgs": msgs, "cuts": [c, min(total, c + 5)], "kinds": [0, 1, 2]}
+    for c in range(0, 60, 3):
+        yield {"key": key, "eph": 5, "server_name": "dev", "expected": "dev", "msgs": [[7, {"h": ""}]], "cuts": [c], "kinds": [0], "close_after": 0}
     # bursts of many complete frames in one chunk; chunks that always end inside a frame while time passes
     small = [[7, {"h": ""}], [26, {"h": "0d01000000"}]]
     for n in (32, 33, 64, 65, 129, 400):
